@@ -38,6 +38,7 @@ Record icase := {
   i_krs : tbl;                        (* insert: rows as stored *)
   i_listed : option (list key);
   i_last_id : Z;
+  i_step : Z;                         (* auto_increment_increment of the session *)
   i_ok : bool;                        (* observed *)
   i_before : image;
   i_after : image;
@@ -55,7 +56,7 @@ Definition model_res (c : icase) : res :=
   | 3 => (* upsert: i_cols = columns assigned by ON DUPLICATE KEY UPDATE; the effect on a colliding row is read off the observed table *)
       at_upsert (i_pk c) all (existsb (fun col => mem_nat col (i_pk c)) (i_cols c)) (i_m c)
                 (fun r => match lookup (key_of (i_pk c) r) (i_ta c) with Some r' => r' | None => r end) (i_krs c) (i_tb c)
-  | _ => at_insert (tracked (i_only_care c) (i_ncols c) (i_pk c) (i_cols c)) (i_krs c) (i_listed c) (i_last_id c) (i_tb c)
+  | _ => at_insert (tracked (i_only_care c) (i_ncols c) (i_pk c) (i_cols c)) (i_krs c) (i_listed c) (i_last_id c, i_step c) (i_tb c)
   end.
 
 Definition check_icase (c : icase) : list N :=
